@@ -26,9 +26,16 @@ NUMS = [0, 0, 1, 2, 9, 10, 11, 99, 100, 101, 999, 1000, 12345]
 BIDS = ["1000", "1001", "0001", "0999", "1999", "22000", "0033", "9998", "1", "123", "10000", "8999", "0100"]
 
 
+# optional groups that start with another optional group ("[[") and sibling groups
+SPECIAL_PATTERNS = ["v[[MAJOR.]MINOR.]PATCH", "MAJOR.MINOR[[.PATCH]-TAG]", "vYYYY.BUILD[[-TAG].NUM]", "MAJOR[.MINOR][-TAG]", "vMAJOR[[.MINOR].PATCH]"]
+
+
 def gen_pattern(r, allow_bad_week=False):
     """Returns (raw_pattern, info). info['wf'] is True when the pattern is in the well-formed class
     for which round-trip is claimed (parts separated so that tokenisation is unambiguous)."""
+    if r.random() < 0.04:
+        pat = r.choice(SPECIAL_PATTERNS)
+        return pat, dict(wf=True, bridge=False, cal="y" if "YYYY" in pat else None, has_num=True, tag="", prefix="", suffix="", sep=".")
     parts = []
     wf = True
     has_cal = r.random() < 0.6
